@@ -11,9 +11,10 @@ const LINE_TEXT_NONASCII: &[&str] = &["héllo", "日本語", "ß\u{3000}x"];
 /// A valid literal as source text: every interior line starts with the closing line's
 /// indentation or is empty. LF line endings (the layout pass converts them).
 pub fn gen_valid_literal(t: &mut Tape, ascii_only: bool) -> String {
-    let q = match t.below(8) {
+    let q = match t.below(10) {
         0 => 5,
         1 => 7,
+        2 => *t.pick(&[9, 11, 13, 21]),
         _ => 3,
     };
     let quotes = "'".repeat(q);
@@ -61,9 +62,10 @@ const ENDINGS: &[&str] = &["\n", "\r\n", "\r"];
 /// invalid variants (a line not starting with the indentation, text before the closing quotes)
 /// and ambiguous ones (whitespace-only line that is neither empty nor a prefix).
 pub fn gen_literal(t: &mut Tape) -> Lit {
-    let q = match t.below(6) {
+    let q = match t.below(8) {
         0 => 5,
         1 => 7,
+        2 => *t.pick(&[9, 11, 13, 21]),
         _ => 3,
     };
     let quotes = "'".repeat(q);
